@@ -1,5 +1,10 @@
 // Harnesses injected as a child module of `key` (sees private items).
 use super::*;
+// explicit imports: the harness must not depend on which names the parent module happens to import
+#[allow(unused_imports)]
+use crate::error::InvalidPublicKeyError;
+#[allow(unused_imports)]
+use crate::LARGE_SAFE_PRIME_LITTLE_ENDIAN;
 
 fn is_zero(k: &[u8; 32]) -> bool {
     let mut z = true;
